@@ -4,15 +4,41 @@ CFG = {
     "extractors": ["C20"],
     "drivers": ["C20"],
     "stateful": True,
-    "trivial_prefix": ("-",),
-    "rule": "dims: (wPix,hPix,w,h) x cell geometries {1x2,8x16,10x20} through the real resizeImage; quick = every "
-            "coinciding-scale-factor case of [1,12]^4 plus a 1/40 sample of [1,24]^4, thorough = all of [1,24]^4 "
-            "(exhaustive), plus random realistic sizes and zero cell geometries; distinct by the op list of a case",
-    "trusted_base": ["float64 steps of resizeImage are a parameter with the hypothesis Sound (exact comparison of the two "
-                     "scale factors; int(a/b*x) within [ceil(q)-1, floor(q)]); the driver instantiates it with IEEE doubles "
-                     "and asserts the hypothesis on every value it sees (DESIGN 3.5)"],
-    "level_text": "Images: see notes/C20.md.",
-    "level_note": "",
-    "assumptions": ["box dimensions w,h >= 0 and image dimensions >= 1 (negative boxes are out of scope)"],
-    "timeout": 1200,
+    "trivial_prefix": ("-", "ok", "N=- L=- R=1"),
+    "rule": "dims: (wPix,hPix,w,h) x cell geometries {1x2,8x16,10x20} through the real resizeImage (VerifResizeDims): quick = every "
+            "coinciding-scale-factor case of [1,12]^4 plus a sample of [1,24]^4 biased to non-fitting boxes, thorough = all of "
+            "[1,24]^4 (exhaustive), plus random realistic sizes (images <= 160 px, boxes incl. empty ones, 8 geometries, 1/4 forced to "
+            "coinciding factors) and zero cell geometries. pixels: toRGB on color.NRGBA at all 256 alpha levels x boundary channels "
+            "(thorough: all 256x256 (alpha, channel) pairs), premultiplied color.RGBA, raw 16-bit quadruples, averageColor of 1-5 "
+            "colours. block images: real image.NRGBA 1x2 at every alpha level for top and bottom pixel, alpha pairs round the "
+            "threshold, random images <= 4x5 px, through New{Half,Full}BlockImage/Resize/CellSize/Draw on a fake-console Vaxis "
+            "incl. too-small boxes and clipping windows. placements: kitty images on a fake console reporting pixel sizes; random "
+            "frame histories that keep / move / drop / add placements, draw twice, skip Clear, resize between frames, Render or "
+            "Refresh; graphics sequences parsed from the console output. A case = one #case block; distinct by its op list; "
+            "non-trivial = not a bare state snapshot",
+    "trusted_base": [
+        "float64 steps of resizeImage are a parameter of the model with the hypothesis Sound (the comparison of the two scale "
+        "factors is exact; int((a/b)*x) lies in [ceil(q)-1, floor(q)] for q = a*x/b). The driver instantiates the parameter with "
+        "IEEE doubles (same operations, same order as the Go code) and asserts the hypothesis on every value it sees (verdict "
+        "'float hypothesis violated' otherwise) (DESIGN 3.5)",
+        "draw.NearestNeighbor.Scale, the PNG / base64 / sixel encoders and octreequant are not modelled (pixels of *rescaled* "
+        "images are only checked for size and for staying inside the image / window)",
+        "Go's image/color conversions NRGBA.RGBA() / RGBA.RGBA() are transcribed in Spec.Images (nrgbaRGBA, rgbaRGBA) and "
+        "validated by the nrgba / rgba / half / full streams",
+        "Window.New / SetCell clipping (C11's subject) is re-stated in the driver for the block-image stream"],
+    "level_text": "Proved for all inputs (Lean, no bound): fit, no_upscale, aspect, no_panic and the CellSize corollaries for "
+                  "kitty/sixel/half/full over the arm structure regenerated from image.go, for every float step meeting Sound; "
+                  "placement_diff for all op histories (induction; invariant last = previous frame) against an independent frame-"
+                  "history spec; opaque_exact (NRGBA and RGBA sources, half and full block), translucent_within_one (kernel "
+                  "evaluation of all 255x256 pairs), alpha_kept, transparent_default (four-way glyph table, full-block threshold). "
+                  "F51 repaired (witness: fit is false of the old arm structure); F52 recorded (witness: zero cell size panics).",
+    "level_note": "Validated by correspondence only: that the model is the code (VerifResizeDims / VerifToRGB / VerifAverageColor / "
+                  "real block images / real kitty placements on a fake console, 0 mismatches), the float hypothesis on the values "
+                  "seen, Window clipping of block images, upload bookkeeping of kitty images (k.buf accumulates encodings). "
+                  "Modelled, not verified: nothing is proved about pixels of rescaled images (NearestNeighbor) or about Sixel "
+                  "placements beyond the shared render loops.",
+    "assumptions": ["box dimensions w,h >= 0 and image dimensions >= 1 (negative boxes and empty images are out of scope)",
+                    "cell pixel size >= 1 in both directions for the fit theorems (the excluded point is finding F52)",
+                    "col,row of a placement within 0..65535 (the kitty placement id packs col<<16|row)"],
+    "timeout": 1800,
 }
